@@ -116,15 +116,26 @@ def check(rep, tier, seed):
             for prefix in (_vu(m), _vu(2 * m), _vu(2 * m + 1), b""):       # unsigned length, zig-zag count, odd count, none
                 pre = b"\x01" if ty.startswith("(opt") else b""
                 mono.append((ty, (pre + prefix + body + b"\xee").hex()))
+    # ... and the unknown-length form (marker, flagged items, terminator) with too few, exactly enough and too many items
+    for ty, n, w in (("(arr 1 bool)", 1, 1), ("(arr 3 bool)", 3, 1), ("(arr 2 i8)", 2, 1), ("(arr 17 i8)", 17, 1), ("(arr 3 u16)", 3, 2),
+                     ("(arr 3 i64)", 3, 8), ("(vec i8)", 3, 1), ("(vec bool)", 3, 1), ("(arc (arr 2 i8))", 2, 1), ("(opt (arr 2 bool))", 2, 1)):
+        for m in sorted(set([0, 1, max(0, n - 1), n, n + 1, 2 * n + 1])):
+            items = b"".join(b"\x01" + bytes(rng.choice([0, 1]) for _ in range(w)) for _ in range(m))
+            pre = b"\x01" if ty.startswith("(opt") else b""
+            mono.append((ty, (pre + b"\x01" + items + b"\x00" + b"\xee").hex()))
+            mono.append((ty, (pre + b"\x01" + items).hex()))                 # the terminator is missing
     hl = [f"mdec {t} {h}" for t, h in mono]
     mcases = [{"env": "-", "cmd": "dec", "ty": t, "hex": h} for t, h in mono]
     mmod = C._run_codec_side(model, mcases, [C.codec_line(c) for c in mcases], wd, "mono.model", 8, 3000)
     for prof, exe in (("release", harness), ("debug", hdebug)):
         mimpl = C.run_sharded(exe, "static", hl, wd, "mono_" + prof, shards=8)
         dis += [(l, f"{prof}: {a}", b) for l, a, b in zip(hl, mimpl, mmod) if a != b]
-        for l, a in zip(hl, mimpl):
+        for l, a, b in zip(hl, mimpl, mmod):
             if a.startswith("panic"):
                 bad.append((l, a, "panic in an unsafe decoding path"))
+            elif a.startswith("ok ") and b.startswith("err "):
+                bad.append((l, a + "  (the format rejects this input: " + b + ")",
+                            "a value was built from input that does not hold all of its elements (uninitialised or foreign memory)"))
     # (3) thorough: the same paths and the dangling witness under Miri
     miri = "not run (quick tier)"
     if tier == "thorough":
